@@ -369,7 +369,10 @@ def rule_r4(p, res):
     md = p.own_method("GMRFVectorModel", "mahalanobis_distance")
     r.instance(md)
     k = [x for x in calls_in(md.node) if norm(x.func) == "self._mahalanobis_distance"]
-    r.check(len(k) == 1 and {a.arg: norm(a.value) for a in k[0].keywords} == {"samples": "samples", "subtract_mean": "subtract_mean", "square_root": "square_root"}, md, md.node, "the public method must forward its flags")
+    inner = p.own_method("GMRFVectorModel", "_mahalanobis_distance")
+    from ..astutil import bind_call
+    bound = {q: str(norm(v_)) for q, v_ in bind_call(k[0], inner, skip_self=True).items()} if len(k) == 1 else {}
+    r.check(len(k) == 1 and bound == {"samples": "samples", "subtract_mean": "subtract_mean", "square_root": "square_root"}, md, md.node, "the public method must forward its flags (bound arguments: %s)" % bound)
 
 
 INVERTERS = ("_covariance_matrix_inverse", "inv", "pinv")
